@@ -313,6 +313,12 @@ def render_func(fs, info):
     if fs.common:
         body, f2 = apply_rules(body, R1_COMMON, what)
         fired += f2
+    loop_lines = []
+    if fs.loops:
+        _offs = find_loops(body)
+        for _o in sorted(k for k in fs.loops if isinstance(k, int)):
+            if _o < len(_offs):
+                loop_lines.append(loc.line_body + dropped_lines + body.count('\n', 0, _offs[_o]))
     body = splice_loops(body, fs.loops or {}, what)
     lines = []
     lines.append(fs.csig)
@@ -340,7 +346,7 @@ def render_func(fs, info):
         'file': fs.file, 'lines': [loc.line_sig, loc.line_end], 'clauses': clauses,
         'rules_fired': [[p, n] for p, n in fired if n],
         'sha256_body': hashlib.sha256(loc.body.encode()).hexdigest(),
-        'loop_contracts': len([k for k in (fs.loops or {}) if isinstance(k, int)]),
+        'loop_contracts': len([k for k in (fs.loops or {}) if isinstance(k, int)]), 'loop_lines': loop_lines,
         'slice': ('only the text from %r to %s is under contract; the %d lines before it%s are dropped' % (fs.slice_from, ('the match of %r' % fs.slice_to) if fs.slice_to else 'the end of the function body', dropped_lines, ' and everything after it' if fs.slice_to else '')) if fs.slice_from else None,
     }
     return '\n'.join(lines) + '\n'
@@ -500,11 +506,13 @@ class Harness:
       replace (callees replaced by their contracts), loop_contracts (bool),
       unwind (None or int -> --unwind N --unwinding-assertions),
       method LF|LC|WU|BD(n), props (property ids served), tier 'quick'|'thorough',
-      defines, extra cbmc flags, solver ('' minisat default|'cadical'), timeout."""
+      defines, extra cbmc flags, solver ('' minisat default|'cadical'), timeout.
+      pre_unwind: int K - loops of the enforced function that carry no loop contract (fixed-count inner loops) are unwound K times with unwinding
+      assertions by a first goto-instrument pass, because --apply-loop-contracts rejects a contract-free loop nested in a loop under contract."""
     def __init__(self, name, entry, enforce=None, replace=(), loop_contracts=False, unwind=None,
                  method='LF', props=(), tier='quick', defines=(), flags=(), solver='', timeout=1500,
                  mem_gb=12, min_obligations=1, expect_classes=None, bounded=False, cover=False,
-                 known=None, dfcc=True, object_bits=None, replay=None, note='', split=False, only=None, jobs=16):
+                 known=None, dfcc=True, object_bits=None, replay=None, note='', split=False, only=None, jobs=16, pre_unwind=None):
         self.__dict__.update(locals())
         del self.__dict__['self']
 
@@ -601,6 +609,25 @@ def build_and_check(unit, h, ctext, info, outdir, nocache=False, trace_prop=None
     if rc != 0:
         res.update(status='broken', reason='goto-cc failed: ' + (se or so)[-3000:])
         return res
+    if h.dfcc and h.pre_unwind and h.enforce:
+        rc, so, se, dt = run(['goto-instrument', '--show-loops', base + '.gb'], 300)
+        keep = set(info['functions'].get(h.enforce, {}).get('loop_lines', []))
+        ids = []
+        for m in re.finditer(r'Loop (%s\.\d+):\s*\n\s*file \S+ line (\d+)' % re.escape(h.enforce), so):
+            if int(m.group(2)) not in keep:
+                ids.append(m.group(1))
+        n_loops = len(re.findall(r'Loop %s\.\d+:' % re.escape(h.enforce), so))
+        if n_loops - len(ids) != len(keep):
+            res.update(status='broken', reason='pre-unwind: %d loops of %s, %d under contract expected, %d matched by line' % (n_loops, h.enforce, len(keep), n_loops - len(ids)))
+            return res
+        if ids:
+            pu = ['goto-instrument', '--unwindset', ','.join('%s:%d' % (i, h.pre_unwind) for i in ids), '--unwinding-assertions', base + '.gb', base + '.u.gb']
+            rc, so, se, dt = run(pu, 600, mem_gb=h.mem_gb)
+            if rc != 0:
+                res.update(status='broken', reason='goto-instrument (pre-unwind) failed: ' + (se or so)[-2000:])
+                return res
+            gi[-2] = base + '.u.gb'
+            res['cmds'].insert(1, ' '.join(pu))
     if h.dfcc:
         rc, so, se, dt = run(gi, 900, mem_gb=h.mem_gb)
         if rc != 0:
